@@ -8,6 +8,7 @@ import (
 	"go.pennock.tech/tabular/html"
 	"go.pennock.tech/tabular/json"
 	"go.pennock.tech/tabular/markdown"
+	"go.pennock.tech/tabular/properties/align"
 	"go.pennock.tech/tabular/texttable"
 	"go.pennock.tech/tabular/texttable/decoration"
 )
@@ -429,4 +430,33 @@ func VerifC10_live() {
 	vfAssert(viaWrap == viaPkg, "wrapper-method-agrees")
 	vfAssert(viaAuto == viaPkg, "auto-agrees")
 	vfObserveStr("out", viaPkg)
+}
+
+// VerifC10_keptsettings: a wrapper object that is kept and rendered again after a column setting was
+// changed or withdrawn agrees with the package function and a fresh wrapper (text and markdown).
+func VerifC10_keptsettings() {
+	t := tabular.New()
+	t.AddHeaders("name", "n")
+	t.AddRowItems("alpha", 1)
+	t.AddRowItems("b", 22)
+	format := 2 + vfChoice("format", 2) // markdown, text
+	keep := vfKeep(t, format)
+	col := vfChoice("col", 3)
+	t.Column(col).SetProperty(align.PropertyType, []align.Alignment{align.Right, align.Center}[vfChoice("first", 2)])
+	_, err0 := keep.Render()
+	switch vfChoice("then", 3) {
+	case 0:
+		t.Column(col).SetProperty(align.PropertyType, nil)
+	case 1:
+		t.Column(col).SetProperty(align.PropertyType, align.Left)
+	case 2:
+		t.Column((col+1)%3).SetProperty(align.PropertyType, align.Center)
+	}
+	out, err := keep.Render()
+	want, werr := vfRenderAs(t, format)
+	fresh, ferr := vfKeep(t, format).Render()
+	vfAssert(vfAnd(err0 == nil, vfAnd(err == nil, vfAnd(werr == nil, ferr == nil))), "render-ok")
+	vfAssert(out == want, "kept-wrapper-agrees-after-change")
+	vfAssert(fresh == want, "wrapper-method-agrees")
+	vfObserveStr("out", out)
 }
